@@ -14,6 +14,8 @@ RULES = '''import "pe"
 rule has_mk1 : tagA tagB { meta: author = "v" n = 7 strings: $a = "MK1;" $b = "MK2;" wide ascii condition: $a or $b }
 rule is_pe { condition: pe.number_of_sections == 1 }
 rule empty_file { condition: filesize == 0 }
+rule has_entry { condition: entrypoint >= 0 }
+rule ext_has_eq { condition: ext_s == "k=v==" }
 rule many : tagC { strings: $x = "x" condition: #x > 3 }
 global private rule g { condition: filesize >= 0 }
 rule ext_rule { condition: ext_i == 5000000000 or ext_s == "" or ext_s == "-" or ext_f > 1.0 or ext_b }
@@ -164,7 +166,7 @@ def c18(res, tier, seed):
     if qrecords:
         res.sample({"threads": qowners[0][0], "queue_events": qrecords[0]["events"][:8]})
     # ---- source vs compiled rules, externals given at either stage
-    ext_values = [("ext_i", "5000000000"), ("ext_i", "-3"), ("ext_s", ""), ("ext_s", "-"), ("ext_s", "abc"), ("ext_f", "1.5"), ("ext_b", "true"), ("ext_i", "12")]
+    ext_values = [("ext_i", "5000000000"), ("ext_i", "-3"), ("ext_s", ""), ("ext_s", "-"), ("ext_s", "abc"), ("ext_f", "1.5"), ("ext_b", "true"), ("ext_i", "12"), ("ext_s", "k=v==")]
     comp = os.path.join(wd, "rules.yarc")
     for name, val in ext_values:
         dflt = dict(zip(EXT_DEFAULT[1::2], [None] * 4))
@@ -173,6 +175,10 @@ def c18(res, tier, seed):
             k, v = d.split("=", 1)
             defs += ["-d", "%s=%s" % (k, val if k == name else v)]
         rc0, out0, err0 = run([yara_a, "-r"] + defs + [rules_path, tree])
+        if val == "k=v==" and (rc0 != 0 or out0.count("ext_has_eq ") != len(paths)):
+            # the value is everything after the FIRST `=`: a rule comparing the variable with that value holds on every file
+            res.violation("-d ext_s=k=v== : the rule `ext_s == \"k=v==\"` is reported for %d of %d files (exit %s, %s)" % (out0.count("ext_has_eq "), len(paths), rc0, err0[-150:].replace("\n", " | ")),
+                          yv.save_replay("C18", "ext_value_with_equal_sign", {"stdout": out0[:2000], "stderr": err0[-2000:]}))
         # (a) externals given to yarac
         rc1, o1, e1 = run([yarac_a] + defs + [rules_path, comp])
         rc2, out2, err2 = run([yara_a, "-r", "-C", comp, tree])
